@@ -7,7 +7,7 @@ from fractions import Fraction
 
 from vlib import Check, run_check, pmap
 import simlib
-from simlib import JOBS, ProbedEngine, command_text, random_plan
+from simlib import JOBS, ProbedEngine, command_text, make_engine, op, random_plan
 
 from simaple.simulate.policy.base import ConsoleText
 from simaple.simulate.policy.handlers import get_next_elapse_time
@@ -28,10 +28,12 @@ def elapse_of(action) -> float:
 def unit(job, variant, pi, seed, length):
     rng = random.Random(f"C06:{seed}:{job}:{variant}:{pi}")
     cmds = random_plan(rng, job, variant, length, offgrid=True)
+    if pi % 2 == 1:
+        cmds = simlib.with_refused(rng, cmds)     # commands the engine refuses with an exception; the session goes on
     pe = ProbedEngine(job, variant)
     out = {"commands": 0, "plays": 0, "router_calls": 0, "elapsed_events": 0, "failing": [], "kinds": {},
            "zero_elapse": 0, "fractional_elapse": 0, "reqs_actions": [], "expect_actions": [], "delay_cases": [],
-           "sample": None, "offgrid": 0}
+           "sample": None, "offgrid": 0, "refused": 0}
 
     def fail(what, **kw):
         out["failing"].append({"kind": "clock", "job": job, "variant": variant, "what": what,
@@ -58,6 +60,18 @@ def unit(job, variant, pi, seed, length):
                                        "what": "the pending events the engine holds differ from the events of the last play",
                                        "plan": [command_text(x) for x in done], "next_command": command_text(c)})
             n_plays = len(pe.plays)
+            if simlib.is_refused(c):
+                log = simlib.exec_safe(pe.engine, c)
+                done.append(c)
+                out["refused"] += 1
+                if log is not None:
+                    fail("a malformed command was not refused", command=command_text(c))
+                    break
+                after = pe.engine.get_current_viewer()("clock")
+                if after != before:
+                    fail(f"a refused command changed the clock by {after - before}", command=command_text(c))
+                    break
+                continue
             log = pe.engine.exec(c)
             if log.playlogs:
                 last_play_events = list(log.playlogs[-1].events)
@@ -127,6 +141,40 @@ def unit(job, variant, pi, seed, length):
     return out
 
 
+def triple_unit(job, variant, seed, per_skill):
+    """every skill cast, used again at once (its follow-up reactions stay pending, some are refused on cooldown) and
+    then ANOTHER skill cast: the second cast's play carries events of other components -- rejections included -- and
+    still advances the clock by the first positive delay it announces"""
+    rng = random.Random(f"C06:triples:{seed}:{job}:{variant}")
+    out = {"triples": 0, "foreign_reject_in_cast_play": 0, "failing": []}
+    names = [v.name for v in make_engine(job, variant).get_current_viewer()("validity")]
+    for s1 in names:
+        for s2 in rng.sample(names, min(per_skill, len(names))):
+            eng = make_engine(job, variant)
+            plan = [op("CAST", s1), op("USE", s1), op("CAST", s2)]
+            done = []
+            for c in plan:
+                before = eng.get_current_viewer()("clock")
+                log = eng.exec(c)
+                done.append(c)
+                after = eng.get_current_viewer()("clock")
+                want = 0.0
+                if c.command == "CAST":
+                    evs = log.playlogs[0].events
+                    want = next((e["payload"]["time"] for e in evs if e["tag"] == TAG_DELAY and e["payload"]["time"] > 0), 0.0)
+                    if want > 0 and any(e["tag"] == "global.reject" for e in evs):
+                        out["foreign_reject_in_cast_play"] += 1
+                if not close(after - before, want):
+                    out["failing"].append({"kind": "clock", "job": job, "variant": variant,
+                                           "what": f"{c.command} advanced the clock by {after - before}, documented {want}",
+                                           "plan": [command_text(x) for x in done], "command": command_text(c)})
+                    break
+            out["triples"] += 1
+            if len(out["failing"]) >= 2:
+                return out
+    return out
+
+
 def main(ck: Check):
     quick = ck.tier == "quick"
     variants = [0, 1] if quick else [0, 1, 2]
@@ -135,7 +183,7 @@ def main(ck: Check):
     rng = ck.rng
     work = [(job, v, pi, ck.seed, rng.randint(*length)) for job in JOBS for v in variants for pi in range(plans_per)]
     tot = {"commands": 0, "plays": 0, "router_calls": 0, "elapsed_events": 0, "zero_elapse": 0, "fractional_elapse": 0,
-           "offgrid": 0}
+           "offgrid": 0, "refused": 0}
     kinds: dict[str, int] = {}
     samples, acts, acts_expect, delays = [], [], [], []
     for args, out in pmap(unit, work, ck.budget_s * 0.7):
@@ -155,6 +203,18 @@ def main(ck: Check):
         acts.extend(out["reqs_actions"][:60])
         acts_expect.extend(out["expect_actions"][:60])
         delays.extend(out["delay_cases"][:20])
+
+    tri = {"triples": 0, "foreign_reject_in_cast_play": 0}
+    for args, out in pmap(triple_unit, [(job, v, ck.seed, 3 if quick else 12) for job in JOBS for v in variants[:2]],
+                          ck.budget_s * 0.2):
+        if args is None:
+            ck.notes.append(f"budget reached (triples): {out}")
+            continue
+        for k in tri:
+            tri[k] += out[k]
+        for f in out["failing"][:2]:
+            ck.add_failing(f)
+    tot.update(tri)
 
     reqs = [{"fn": "elapse_of", "actions": acts}] + \
            [{"fn": "first_delay", "events": evs, **({"name": n} if n is not None else {})} for evs, n, _w in delays]
@@ -188,7 +248,9 @@ def main(ck: Check):
                 "playlog clock = previous + elapse time of its action; per top-level router call (the hypothesis hRouter of the "
                 "theorems) clock change = elapse time of that action; every 'elapsed' notification carries the elapse time; "
                 "clock = exact sum of dispatched elapse times (Fraction; float rounding counted as offgrid and compared with "
-                "tolerance); no component dispatcher is bound to global.time. distinct_nontrivial = plays",
+                "tolerance); no component dispatcher is bound to global.time; every second plan also holds commands the engine "
+                "refuses with an exception (malformed ELAPSE, unknown command word, raising debug line; also as the very "
+                "first command): they must leave the clock alone and the session goes on. distinct_nontrivial = plays",
         "samples": samples,
         "command_kinds": kinds,
         **tot,
